@@ -556,6 +556,25 @@ struct Config
         out << os.str() << "\n";
     }
 
+    // number of stored objects of an element whose assignment operators are user-provided and counted (hv::Tra)
+    template <class Ref, std::size_t... I>
+    static std::size_t counted_objects(const Ref& r, std::index_sequence<I...>)
+    {
+        std::size_t n = 0;
+        auto one = [&](auto idx) {
+            constexpr std::size_t K = decltype(idx)::value;
+            using Pi = std::tuple_element_t<K, Params>;
+            if constexpr (hv::IS_TRA<typename Pi::type>)
+            {
+                if constexpr (Pi::kind == PLAIN)
+                    n += 1;
+                else
+                    n += cntgs::get<K>(r).size();
+            }
+        };
+        (one(std::integral_constant<std::size_t, I>{}), ...);
+        return n;
+    }
     // values left behind by a move: tracked objects read 0 afterwards, trivially movable ones keep their value
     template <std::size_t I>
     static void moved_from(Vals& vals)
@@ -1001,6 +1020,8 @@ struct Config
             std::size_t j = std::stoull(t[2]), i = std::stoull(t[4]);
             Vector& src = *vec[sidx].v;
             Vector& dst = *vec[d].v;
+            const long assigns_before = hv::Life::get().assigns;
+            const std::size_t counted = (sidx == d && i == j) ? 0 : counted_objects(std::as_const(dst)[i], std::make_index_sequence<N>{});
             if (op == "refassign")
             {
                 auto r = src[j];
@@ -1014,6 +1035,8 @@ struct Config
             {
                 dst[i] = src[j];  // prvalue mutable reference: move assignment
             }
+            if (static_cast<std::size_t>(hv::Life::get().assigns - assigns_before) < counted)
+                violation("C11:assignment-through-references-bypassed-the-value-type's-assignment-operator");
             Vals moved = vec[sidx].oracle[j];
             vec[d].oracle[i] = vec[sidx].oracle[j];
             if (op == "refmove" && !(sidx == d && i == j))
@@ -1030,6 +1053,8 @@ struct Config
             std::size_t i = std::stoull(t[2]), j = std::stoull(t[4]);
             Vector& x = *vec[a].v;
             Vector& y = *vec[b].v;
+            const long assigns_before = hv::Life::get().assigns;
+            const std::size_t counted = (a == b && i == j) ? 0 : counted_objects(std::as_const(x)[i], std::make_index_sequence<N>{});
             if (op == "refswap")
             {
                 using std::swap;
@@ -1039,6 +1064,8 @@ struct Config
             {
                 std::iter_swap(x.begin() + static_cast<std::ptrdiff_t>(i), y.begin() + static_cast<std::ptrdiff_t>(j));
             }
+            if (static_cast<std::size_t>(hv::Life::get().assigns - assigns_before) < counted)
+                violation("C11:swap-through-references-bypassed-the-value-type's-assignment-operator");
             Vals tmp = vec[a].oracle[i];
             vec[a].oracle[i] = vec[b].oracle[j];
             vec[b].oracle[j] = tmp;
